@@ -561,6 +561,26 @@ def check(ctx):
         add_case("eq %s %s %s %s" % (C(a), C(b), C(c), C(d)), t_eq, r_eq, shape)
         add_case("ne %s %s %s %s" % (C(a), C(b), C(c), C(d)), t_ne, r_ne, shape)
 
+    def case_eq_scalar():
+        """an interval against a NUMBER (either order): whatever == answers, != answers the opposite"""
+        x = gen_scalar(rng)
+        forms = ["[%s, %s]" % (x.text, x.text), "%s ± 0" % x.text, "tol(%s, 0)" % x.text, "[1, 3]^0", "[1, 3]*0", "min([1, 3], 0)", "max([1, 3], 5)",
+                 "[%s, %s + 1]" % (x.text, x.text), "[0, 0]"]
+        it = rng.choice(forms)
+        y = rng.choice([x.text, "0", "1", "5", gen_scalar(rng).text])
+        for l, r in ((it, y), (y, it)):
+            t_eq, t_ne = "(%s) == (%s)" % (l, r), "(%s) != (%s)" % (l, r)
+            if not fresh(t_eq):
+                continue
+            r_eq, r_ne = real.value(t_eq), real.value(t_ne)
+            ctx.count(t_eq, bucket="eq_ne_scalar/%s" % (canon_result(real, r_eq)))
+            if r_eq[0] != "ok" and r_ne[0] != "ok":
+                continue            # both rejected: nothing is claimed
+            ok = (r_eq[0] == "ok" and r_ne[0] == "ok" and not isinstance(r_eq[1], bool) and not isinstance(r_ne[1], bool)
+                  and r_eq[1] in (0, 1) and r_ne[1] in (0, 1) and r_ne[1] == 1 - r_eq[1])
+            if not ok:
+                ctx.violation("eq-ne:" + t_eq, t_ne, "1 - (%s) = 1 - %s" % (t_eq, canon_result(real, r_eq)), canon_result(real, r_ne), HOW % t_ne)
+
     def case_minmax():
         a, b, shape = gen_interval(rng)
         I = operand(a, b)
@@ -611,7 +631,7 @@ def check(ctx):
         add_case("%s %s %s" % (form, C(x), C(y)), txt, res, "pm")
 
     kinds = [(case_binop, 26), (case_pow, 18), (case_unary, 14), (case_log, 10), (case_cmp, 16),
-             (case_in, 5), (case_eq, 5), (case_minmax, 6), (case_pm, 4)]
+             (case_in, 5), (case_eq, 5), (case_eq_scalar, 3), (case_minmax, 6), (case_pm, 4)]
     fns = [f for f, w in kinds for _ in range(w)]
 
     # corpus first: the two repaired defects and hand-picked edges, as plain text through the same oracles
